@@ -15,6 +15,7 @@ from concurrent.futures import ThreadPoolExecutor
 
 VERIF = os.path.dirname(os.path.dirname(os.path.abspath(__file__)))
 REPO = os.environ.get("VERIF_REPO", "/repo")
+os.environ["VERIF_REPO"] = REPO      # generators and replayers started from here see the same tree
 DEFAULT_CHECKS = ["--bounds-check", "--pointer-check", "--pointer-overflow-check", "--signed-overflow-check",
                   "--conversion-check", "--div-by-zero-check", "--undefined-shift-check", "--pointer-primitive-check"]
 AUX_RE = re.compile(r"loop_invariant|loop_assigns|loop_decreases|loop_step_unwinding|loop invariant|decreases clause|assigns clause.*loop", re.I)
